@@ -51,8 +51,13 @@ def shapes_for(tier):
         if tier != "quick":
             out.append({"cascade": [(rq, 0)]})
     out.append({"cascade": [(2, 3)], "free": [2]})
-    for rr, cnt in [(0, 11), (1, 5), (1, 6), (2, 4), (2, 5), (3, 4), (3, 8), (7, 4)]:
+    for rr, cnt in [(0, 11), (1, 5), (1, 6), (2, 4), (2, 5), (3, 4), (3, 8), (7, 4), (25, 4), (28, 5), (29, 4)]:
         out.append({"runs": [(rr, cnt)]})
+    out.append({"groups": [(0, 1), (0, 1)]})
+    out.append({"groups": [(1, 1), (0, 1)]})
+    out.append({"groups": [(27, 1)], "free": [28]})
+    out.append({"cascade": [(26, 2)]})
+    out.append({"groups": [(28, 1)]})
     if tier != "quick":
         for a, b in [(0, 0), (0, 1), (1, 1), (1, 2), (2, 2), (0, 2)]:
             out.append({"groups": [(a, 1), (b, 1)]})
